@@ -30,7 +30,7 @@ from core.loader import AnalysisError, FuncInfo, Repo, ancestors, header, norm, 
 from core.report import Result
 
 from .c11_coll import Collections, flatten
-from .c11_lib import Fn, names_loaded, show
+from .c11_lib import Fn, class_view, names_loaded, show
 from .c11_prov import Provenance, field_key
 from .common import assigned_names, cfg_of, dotted, guard_formula, reachable_funcs, stmt_of, types_of, upward_exposed, where
 from .tables import EXPLICIT_QUERY, MATCHER, MODREQ, OTHER_QUERIES, RULE, SEARCHES
@@ -51,15 +51,25 @@ def _matcher_classes(repo: Repo) -> list:
     return [base, *repo.subclasses(base)]
 
 
+CONSUMER_MODULES = (
+    "pytestarch.rule_assessment.rule_check.rule_violation_detector",
+    "pytestarch.rule_assessment.rule_check.layer_rule_violation_detector",
+    "pytestarch.rule_assessment.rule_check.rule_violations",
+    "pytestarch.rule_assessment.rule_check.behavior_requirement",
+    "pytestarch.rule_assessment.error_message.",
+)
+
+
 def _allow_r1(caller: FuncInfo, callee: FuncInfo) -> bool:
-    """Inline the matcher's own helpers (wherever they live); the conversion stays a call, and the consumers of the converted
-    requirement (detectors, message generators, requirement classes, the evaluable) are not part of the pipeline under test."""
+    """The pipeline between the entry point and its consumers is inlined wherever it lives (matcher classes, the requirement
+    class, module-level helpers); the conversion itself stays a call, and the evaluable (graph, searches) and the consumers of the
+    converted requirement (detectors, message generators, violation records) are not part of the pipeline under test."""
     if callee.fq == CONVERT_FQ:
         return False
-    if callee.cls is None:
-        return callee.module.name not in (SEARCHES,)
-    repo = callee.module.repo  # type: ignore[attr-defined]
-    return callee.cls in _matcher_classes(repo)
+    name = callee.module.name
+    if name.startswith("pytestarch.eval_structure"):
+        return False
+    return not any(name == m or (m.endswith(".") and name.startswith(m)) for m in CONSUMER_MODULES)
 
 
 def _members(t) -> list:
@@ -274,8 +284,33 @@ def run_r1(repo: Repo, res: Result) -> None:
     classes = _matcher_classes(repo)
     none_fields = _ctor_none_fields(repo) if fresh else set()
     nq = 0
-    for entry in entries:
-        view = inline_view(repo, entry, T, allow=_allow_r1, max_depth=4)
+    concrete = [c for c in classes if not any(m.is_abstract and repo.lookup_method(c, m.name) is m for k in repo.mro(c) for m in k.methods.values())] or classes[:1]
+    reported: dict[str, bool] = {}
+
+    class Dedupe:
+        """The same construct analysed for several concrete matcher classes is reported once per verdict."""
+
+        def add(self, rule, construct, ok, detail="", where="", nontrivial=True, kind="structural"):
+            if reported.get(construct) == bool(ok):
+                return None
+            if construct in reported:
+                construct = f"{construct} [as {cur.name}]"
+            reported[construct] = bool(ok)
+            return res_.add(rule, construct, ok, detail, where, nontrivial, kind)
+
+        def undecide(self, rule, construct, detail, where=""):
+            if not any(u["construct"] == construct for u in res_.undecided):
+                res_.undecide(rule, construct, detail, where)
+
+        def observe(self, text):
+            if text not in res_.observations:
+                res_.observe(text)
+
+    res_ = res
+    res = Dedupe()
+    for cur, entry0 in [(c, e) for c in concrete for e in entries]:
+        entry = repo.lookup_method(cur, entry0.name) or entry0
+        view = class_view(repo, entry, cur, allow=_allow_r1, max_depth=4)
         fn = Fn(repo, view)
         cfg = cfg_of(view)
         ev = next((p.arg for p in view.params[1:] if p.annotation is not None and any(m[0] == "cls" and m[1].endswith(".EvaluableArchitecture") for m in _members(T.ann(view.module, p.annotation)))), view.param_names[1] if len(view.param_names) > 1 else "")
@@ -433,7 +468,7 @@ def run_r1(repo: Repo, res: Result) -> None:
                     up = parent(node)
                     if isinstance(up, ast.Attribute) and _scalar_type(T.expr(m, up)):
                         continue  # only a flag of the requirement is read
-                    t = prov.at(stmt_of(c), f"self.{node.attr}")
+                    t = prov.field_at(stmt_of(c), node.attr)
                     pre = [x for x in t if x.startswith("pre:")]
                     flt = sorted(x for x in t if x.startswith("via:filter:"))
                     okr = not pre and not flt and any(x.startswith("conv:") for x in t)
@@ -444,9 +479,23 @@ def run_r1(repo: Repo, res: Result) -> None:
                     nq += 1
                     shown = up if isinstance(up, ast.Attribute) else node
                     res.add("C11.R1", repo.key(m, stmt_of(node)) + f" [{norm(shown, 80)}]", okr, "reads the converted requirement" if okr else f"{m.qualname} reads `{norm(shown)}`, which at the call `{norm(c, 50)}` is {'the un-converted (or a stale) requirement' if pre else ('the conversion result filtered by `' + flt[0][11:] + '`') if flt else 'not the result of the conversion'}: the detector / message generator does not judge the converted requirement", where(m, node), kind="flow")
+        # consumers constructed inside the view (their factory was inlined for this concrete class)
+        for c in calls:
+            cs_, how_ = fn.callees(c)
+            if not cs_ or not all(f.name in ("__init__", "__post_init__") and any(f.module.name == m or (m.endswith(".") and f.module.name.startswith(m)) for m in CONSUMER_MODULES) for f in cs_):
+                continue
+            for a in [*c.args, *[k.value for k in c.keywords]]:
+                if not _carrying(repo, fn.type_of(a)):
+                    continue
+                t = prov.of(a)
+                pre = sorted(x for x in t if x.startswith("pre:"))
+                flt = sorted(x for x in t if x.startswith("via:filter:"))
+                okr = not pre and not flt and any(x.startswith("conv:") for x in t)
+                nq += 1
+                res.add("C11.R1", repo.key(view, stmt_of(c)) + f" [{norm(a, 80)}]", okr, "is built from the converted requirement" if okr else f"`{norm(c, 60)}` receives `{norm(a, 50)}`, which is {'read from `' + pre[0][4:] + '` as it was before this evaluation (the un-converted or a stale requirement)' if pre else ('the conversion result filtered by `' + flt[0][11:] + '`') if flt else 'not the result of the conversion'}: the detector / message generator does not judge the converted requirement", where(view, c), kind="flow")
         if assumed:
             res.observe(f"C11.R1: evaluated under the constructor state of a freshly created matcher ({', '.join(assumed)})")
-    res.floor("C11.R1", 1, nq)  # at least one graph query was found and judged (a view without queries is an ANALYSIS-ERROR above)
+    res_.floor("C11.R1", 1, nq)  # at least one graph query was found and judged (a view without queries is an ANALYSIS-ERROR above)
 
 
 # --------------------------------------------------------------------------------------------------------------- C11.R2
@@ -729,8 +778,9 @@ def _no_match_raises(repo: Repo, view: FuncInfo, fn: Fn, co: Collections, raises
             u = u.left.args[0]
         else:
             return False, f"ImpossibleMatch is raised under `{show(u)}`, not whenever some pattern matched nothing"
-    if not isinstance(u, ast.Name):
+    if not (isinstance(u, ast.Name) or (isinstance(u, ast.Attribute) and isinstance(u.value, ast.Name) and u.value.id not in ("self", "cls"))):
         return None, f"the condition `{show(u)}` of the raise is not the truthiness of a collection"
+    uname = dotted(u)
     cfg = cfg_of(view)
     guard_if = _if_of(r)
     if not cfg.dominates(guard_if, ret):
@@ -746,9 +796,9 @@ def _no_match_raises(repo: Repo, view: FuncInfo, fn: Fn, co: Collections, raises
             return False, "the unmatched-pattern test can be made before the scan"
     du = _full(co, u)
     if du.unknown:
-        return None, f"`{u.id}` is not recognised: {du.unknown[0]}"
+        return None, f"`{uname}` is not recognised: {du.unknown[0]}"
     if not du.contribs:
-        return False, f"`{u.id}` never holds a pattern"
+        return False, f"`{uname}` never holds a pattern"
     # form A: all patterns, each taken out when (and only when) it matched
     images = [_pattern_image(c, modules_p) for c in du.contribs]
     if all(ok for ok, _ in images):
@@ -756,7 +806,7 @@ def _no_match_raises(repo: Repo, view: FuncInfo, fn: Fn, co: Collections, raises
         if all(not rest for rest in rests):
             rem = du.removals
             if not rem:
-                return False, f"`{u.id}` holds every pattern and none is ever taken out"
+                return False, f"`{uname}` holds every pattern and none is ever taken out"
             for x in rem:
                 if x.how == "difference":
                     got = _matched_keys(fn, co, x.value, modules_p, arch_p)
@@ -765,9 +815,9 @@ def _no_match_raises(repo: Repo, view: FuncInfo, fn: Fn, co: Collections, raises
                     continue
                 if x.how not in ("remove", "discard"):
                     return None, f"`{show(x.node, 60)}` on the unmatched set is not recognised"
-                m = matched_pair(fn, x, modules_p, arch_p, membership_of=u.id)
+                m = matched_pair(fn, x, modules_p, arch_p, membership_of=uname)
                 if not m.ok:
-                    return False, f"a pattern is taken out of the unmatched set `{u.id}` by `{show(x.node, 60)}`, but {m.why}"
+                    return False, f"a pattern is taken out of the unmatched set `{uname}` by `{show(x.node, 60)}`, but {m.why}"
                 if not _is_identifier_of(x.elt, m.pattern):
                     return False, f"`{show(x.node, 60)}` takes `{show(x.elt)}` out of the unmatched set, not the pattern that matched"
             return True, ""
@@ -787,16 +837,18 @@ def _no_match_raises(repo: Repo, view: FuncInfo, fn: Fn, co: Collections, raises
         if got is not None:
             return got
         extra = [f"{'' if p else 'not '}{show(l)}" for rest in rests for l, p in rest]
-        return False, f"the unmatched set `{u.id}` does not start from all regex filters (only those with `{' and '.join(extra[:2])}`)"
+        return False, f"the unmatched set `{uname}` does not start from all regex filters (only those with `{' and '.join(extra[:2])}`)"
     got = _unmatched_by_counter(fn, co, u, modules_p, arch_p)
     if got is not None:
         return got
-    return None, f"the unmatched set `{u.id}` is `{du.contribs[0].text()[:100]}` - not recognised"
+    return None, f"the unmatched set `{uname}` is `{du.contribs[0].text()[:100]}` - not recognised"
 
 
 def _unmatched_by_counter(fn: Fn, co: Collections, u: ast.Name, modules_p: str, arch_p: str):
     """`counts = dict.fromkeys(patterns, 0)` ... `counts[p] += 1` for every match ... `U = [p for p, n in counts.items() if n == 0]`.
     Returns None if the shape is a different one."""
+    if not isinstance(u, ast.Name):
+        return None
     raw = co.describe(u)
     if raw.unknown or raw.removals or len(raw.contribs) != 1:
         return None
@@ -843,6 +895,8 @@ def _unmatched_by_flag(fn: Fn, co: Collections, u: ast.Name, modules_p: str, arc
     U.add(p)`  or  `if not any(test(p, m) for m in modules): U.add(p)`.  Returns None if the shape is a different one."""
     from .c11_coll import Binder, Contribution
 
+    if not isinstance(u, ast.Name):
+        return None
     raw = co.describe(u)
     if raw.unknown or raw.removals or len(raw.contribs) != 1:
         return None
@@ -1208,8 +1262,8 @@ def run_r4(repo: Repo, res: Result) -> None:
                 for a in [*call.args, *[k.value for k in call.keywords]]:
                     if isinstance(a, ast.Name) and a.id in bnames:
                         continue
-                    if isinstance(a, ast.Attribute) and dotted(a).startswith("self.") and _is_graph(fn, a):
-                        continue
+                    if isinstance(a, ast.Attribute) and _is_graph(fn, a):
+                        continue  # the graph itself (read-only for the searches)
                     whole = False
                     if True:
                         da = co.normalise(co._describe_copy(a))
